@@ -97,7 +97,17 @@ def draw_int(draw, v):
 
 
 def draw_seq(draw, vals):
-    return {"t": draw(st.sampled_from(["list", "nd"])), "v": [int(x) for x in vals]}
+    vals = [int(x) for x in vals]
+    t = draw(st.sampled_from(["list", "nd", "nd"]))
+    e = {"t": t, "v": vals}
+    if t == "nd":
+        # valid index values in a narrow element type: flat offsets computed in that type would wrap
+        fits = [dt for dt in ("int8", "int16", "int32", "uint8", "uint16")
+                if all(np.iinfo(dt).min <= v <= np.iinfo(dt).max for v in vals)]
+        dt = draw(st.sampled_from(["int64", "int64"] + fits))
+        if dt != "int64":
+            e["dt"] = dt
+    return e
 
 
 def draw_row_index(draw, n, oob=False):
@@ -718,6 +728,8 @@ CLAUSES = [
     Clause("slice_cols", case_slice_cols(**SC), run_read, quick=700, thorough=4200, doc="a[slice, j], a[slice, cols]",
            exhaustive=exh_slice_int),
     # fancy
+    Clause("paired_long_rows", case_paired(eshapes=("scalar",), max_rows=4, max_len=150), run_read, quick=300, thorough=3000,
+           doc="paired / (row, cols) / (rows, col) reads on rows long enough that flat offsets exceed 127 / 255"),
     Clause("paired", case_paired(**SC), run_read, quick=900, thorough=5400,
            doc="a[(rows, cols)], a[i, cols], a[rows, j]"),
     Clause("mask", case_mask(**SC), run_read, quick=700, thorough=4200, doc="a[ragged bool mask] + ra.where"),
